@@ -4,24 +4,38 @@ import cybuild
 
 TITLE = "Unbound local variables fail exactly where CPython fails"
 EXTRACTS = ["Flow"]
-RULE = ("generated functions with random structured control flow (if/elif/else, for/while with else, "
+RULE = ("(a) core programs (props/C21_core.py = the statement language of M_FlowCFG): for every jump kind (continue, "
+        "break, return, raise, none) x every nesting of try/finally, try/except, except..as, with (depth 1-3) x "
+        "for/while: the jump inside the innermost layer, del / (conditional) assignment / read of the variable before, "
+        "inside and after the try, in the finally clause, in the handler, at the loop head, in the else clause and "
+        "after the loop; conditions are plain c[i] or counters (true for the first n evaluations / false for the "
+        "first n), finally clauses may themselves end in a jump; (b) generated functions with random structured control flow (if/elif/else, for/while with else, "
         "break/continue, try/except/else/finally, with (swallowing or not), match, del, augmented and walrus "
         "assignment, comprehensions, closures with nonlocal) over a few variables; every function is called on "
         "every branch-selecting input vector (capped sample when > cap); distinct by (function source, input); "
         "non-trivial = the function contains at least one read/del whose definedness depends on the path")
-EXPLANATION = ("theorems (all finite CFGs, any block order): the round-robin reaching-definitions iteration of "
+EXPLANATION = ("CFG construction (M_FlowCFG = ControlFlowAnalysis.visit_* + normalize, variant flag fx): for the repaired "
+               "builder every execution of a function body (any branch outcomes, loop counts, raise points; jumps through "
+               "any nesting of try/finally/except/loops) is covered by the built graph (C21_cfg_covers_paths) and every "
+               "name read while unbound therefore gets the cf_maybe_null hint from check_definitions "
+               "(C21_unbound_use_is_checked; side condition graph_ok evaluated by the model on every program); for the "
+               "builder as it is the statement is refuted (C21_asis_*_refuted = the two registered findings). "
+               "Data flow: theorems (all finite CFGs, any block order): the round-robin reaching-definitions iteration of "
                "ControlFlow.reaching_definitions terminates within blocks*bits+1 passes, its result is the least "
                "fixpoint, it contains every definition that survives some CFG path (meet-over-paths soundness), and "
                "therefore a reference that check_definitions classifies 'definitely bound' (no run-time check "
                "emitted) is bound on every CFG path reaching it and one classified cf_is_null is unbound on every "
                "such path; initialize()'s gen/kill/mask bit sets are derived from the block statements inside the "
-               "model. partial: that the CFG built by ControlFlowAnalysis covers every interpreter path is NOT "
-               "proved (it is false: finding del_in_try_no_exception_edge) - it is tested by compiling and running "
-               "generated functions against CPython; NameNode code emission is tested, not modelled.")
+               "model. partial: graph_ok(build p) is checked per program, not proved for all p; no as-is theorem restricted to "
+               "programs outside the finding classes; constructs outside the core language (match, comprehensions, "
+               "closures, walrus, augmented assignment, elif) and NameNode code emission are tested against CPython, "
+               "not modelled.")
 TRUSTED = ["CPython 3.12 executing the same source text as the oracle for UnboundLocalError/NameError/values",
            "gcc as a conforming C compiler for the generated module",
            "dump of ControlFlow state through a monkey-patched FlowControl.check_definitions (pure-Python sources via pyload)"]
-ASSUMPTIONS = ["function scopes: scope_predefined_names is empty; ControlBlock.bounded is never populated by the code "
+ASSUMPTIONS = ["core language semantics: only definedness matters; every condition, handler match and raise point is "
+               "nondeterministic; except-clause patterns contain no tracked names; with = its WithTransform desugaring",
+               "function scopes: scope_predefined_names is empty; ControlBlock.bounded is never populated by the code "
                "(checked on every dumped block)",
                "an execution follows CFG edges and executes the statements of each visited block in order "
                "(possibly stopping inside the last block)"]
@@ -46,6 +60,10 @@ class CM:
 
 MAXC = 6
 MAXD = 2
+
+# model variant of the CFG construction: "0" = the code as it is, "1" = after
+# proposed_fixes/C21-jump_through_nested_finally.diff has been applied (flip the default then)
+FX = os.environ.get("C21_FX", "0")
 
 
 class Gen:
@@ -703,6 +721,15 @@ def classify(feat, dump_feat, py, cy):
     """stable class of a failing case, from the function's features first.  The known classes all have the
     shape 'CPython raises the unbound error here, the compiled code reads NULL or carries on'."""
     unbound = ("UnboundLocalError", "NameError")
+    if FX == "0" and ((py[0] in unbound) != (cy[0] in unbound) or
+                      (py[0] in unbound and cy[0] in unbound and py[2] != cy[2])):
+        # known defects of the CFG construction (refuted theorems C21_asis_*): only for functions that have the
+        # syntactic shape, and only the symptom "the unbound error is raised at a different point / not at all /
+        # the compiled code dereferences NULL"
+        if "jump2fin" in feat or "ret3fin" in feat:
+            return "jump_skips_outer_finally"
+        if "finjump" in feat:
+            return "exception_in_finally_ending_in_jump"
     if py[0] in unbound:
         pt, ct = py[2][1:-1], cy[2][1:-1]
         continued = (cy[0] != "CRASH" and ct.startswith(pt) and
@@ -793,6 +820,43 @@ def run(ctx):
         with open(path, "w") as f:
             f.write(src)
         mods.append({"name": name, "src": path, "funcs": funcs})
+    # ---- core programs: the language of M_FlowCFG (jumps through nested try/finally/except/with in loops)
+    here = os.path.dirname(os.path.abspath(__file__))
+    import sys
+    if here not in sys.path:
+        sys.path.insert(0, here)
+    import C21_core as K
+    combos = [(j, w) for ji, j in enumerate(K.JUMPS) for wi, w in enumerate(K.WRAPS)
+              if not quick or (wi + ji) % 2 == 0]
+    reps = 1 if quick else 6
+    core_funcs = [(list(b), "fixed", ()) for b in K.FIXED_CORE]
+    for rep in range(reps):
+        for j, w in combos:
+            body, doms = K.gen_core(rng, j, w, ("for", "while")[(rep + len(w) + len(j)) % 2],
+                                    fin_jump_prob=0.15 if rep % 2 == 0 else 0.0)
+            core_funcs.append((body, j, w))
+    ncm = 3 if quick else 16
+    core_cap = 300 if quick else 1500
+    for mi in range(ncm):
+        name = "c21k%d" % mi
+        funcs = []
+        src = "# cython: language_level=3\n" + PRELUDE + K.PRELUDE_CORE
+        for fi, (body, j, w) in enumerate(core_funcs[mi::ncm]):
+            fname = "k%d" % fi
+            fsrc = K.render_function(fname, body)
+            ne, args, toks, names = K.encode(body)
+            start = src.count("\n") + 1
+            src += "\n" + fsrc
+            doms = K.slots(body)
+            feat = sorted(K.features(body) | {"core"})
+            funcs.append({"name": fname, "doms": doms, "feat": feat, "src": fsrc,
+                          "lines": (start, src.count("\n") + 1), "inputs": inputs_for(doms, rng, core_cap),
+                          "core": {"q": "cfg %s %d %s %s" % (FX, ne, args, toks), "names": names,
+                                   "jump": j, "wraps": "".join(w)}})
+        path = os.path.join(W, name + ".pyx")
+        with open(path, "w") as f:
+            f.write(src)
+        mods.append({"name": name, "src": path, "funcs": funcs, "prelude": PRELUDE + K.PRELUDE_CORE})
     import time
     t0 = time.time()
     dumps, status = build_all(ctx, mods)
@@ -832,6 +896,27 @@ def run(ctx):
             if f["lines"][0] <= fl["line"] < f["lines"][1]:
                 dump_feat.setdefault((m["name"], f["name"]), set()).update(df)
 
+    # ---- (a2) model of the CFG construction vs the statements and hints of the real flow (core functions)
+    cq, cmeta = [], []
+    for m in mods:
+        by_name = {fl.get("fname"): fl for fl in dumps.get(m["name"], []) if "dump_error" not in fl}
+        for f in m["funcs"]:
+            if "core" not in f:
+                continue
+            fl = by_name.get(f["name"])
+            if fl is None:
+                if status.get(m["name"]) is None:
+                    ctx.corr_break("cfg:dump", {"module": m["name"], "func": f["name"]}, "no flow dumped", "flow")
+                continue
+            cq.append(f["core"]["q"])
+            cmeta.append((m, f, fl))
+    cans = model.batch(cq) if cq else []
+    for (m, f, fl), ans in zip(cmeta, cans):
+        where = {"module": m["name"], "func": f["name"], "source": f["src"], "query": f["core"]["q"]}
+        compare_core(ctx, fl, f["core"], ans, where)
+        ctx.case("corecfg/%s/depth%d" % (f["core"]["jump"], len(f["core"]["wraps"])),
+                 {"module": m["name"], "func": f["name"]}, sig=("corecfg", f["core"]["q"]))
+
     t2 = time.time()
     # ---- (b) compiled functions vs CPython on every input vector
     cy_cases, py_cases, owners = [], [], []
@@ -867,12 +952,35 @@ def run(ctx):
             stratum = "%s/%s%s" % ("lenient-only" if "rejected_by_default" in dfe else "default",
                                    "unbound" if unb else ("exc" if py[0] != "ok" else "value"),
                                    "/closure" if "def h1" in f["src"] else "")
+            if "core" in f:
+                stratum = "core/%s/%s" % (f["core"]["jump"], stratum)
             ctx.case(stratum, {"module": m["name"], "func": f["name"], "c": inp}, sig=(f["src"], tuple(inp)),
                      nontrivial=("read" in f["feat"] or "del" in f["feat"]))
             if py != cy:
                 ctx.fail(classify(f["feat"], dfe, py, cy),
-                         {"module": m["name"], "func": f["name"], "c": inp, "source": PRELUDE + "\n" + f["src"]},
+                         {"module": m["name"], "func": f["name"], "c": inp,
+                          "source": m.get("prelude", PRELUDE) + "\n" + f["src"]},
                          cy, py, note="features %s %s" % (f["feat"], sorted(dfe)))
+    _debug_dump(ctx)
+
+
+def _debug_dump(ctx):
+    path = os.environ.get("C21_DEBUG")
+    if not path:
+        return
+    import collections
+    with open(path, "w") as f:
+        cnt = collections.Counter(x["class"] for x in ctx.prop_failures)
+        f.write("fail classes (unknown, first 50): %s\nknown hits: %s\n" % (
+            dict(cnt), {k: v["count"] for k, v in ctx.known_hits.items()}))
+        for x in ctx.prop_failures[:12]:
+            f.write("FAIL %s %s %s c=%s obs=%s exp=%s %s\n%s\n" % (
+                x["class"], x["input"].get("module"), x["input"].get("func"), x["input"].get("c"),
+                x["observed"], x["expected"], x["note"], x["input"].get("source", "")[-1500:]))
+        for x in ctx.corr_breaks[:20]:
+            f.write("BREAK %s %s impl=%s model=%s\n" % (x["pair"], json.dumps(x["input"])[:1800],
+                                                       json.dumps(x["impl"])[:600], json.dumps(x["model"])[:600]))
+        f.write("notes: %s\n" % ctx.notes)
 
 
 def replay(ctx, obj):
